@@ -120,6 +120,21 @@ impl OligoCgrComputer {
         Ok(())
     }
 
+    #[cfg(kmertools_verif)]
+    pub fn verif_set_max_memory(&mut self, memory: usize) {
+        self.memory = memory;
+    }
+
+    #[cfg(kmertools_verif)]
+    pub fn verif_vectorise_one(&self, seq: &[u8]) -> Result<Vec<(Point, f64)>, String> {
+        self.vectorise_one(seq)
+    }
+
+    #[cfg(kmertools_verif)]
+    pub fn verif_header(&self) -> Vec<String> {
+        self.kmers.clone()
+    }
+
     fn vectorise_one(&self, seq: &[u8]) -> Result<Vec<(Point, f64)>, String> {
         let mut cgr = Vec::with_capacity(seq.len());
         let freqs = self.seq_to_kmer(seq);
